@@ -6,6 +6,10 @@ TRUST = ("x/tools go/ssa v0.29.0 lowering; /verif/engine VC generator and SMT pr
          "Go type+memory safety (no unsafe, no data races on verified state, 64-bit int); trusted-spec contracts on external functions listed in the evidence file; "
          "termination only where a decreases clause or a range loop is checked. ")
 claimed = {
+ "C04": ("proof", "Header.MarshalSize/MarshalTo/Marshal and Packet.MarshalSize/MarshalTo/Marshal: a destination shorter than MarshalSize() gives (0, io.ErrShortBuffer) without panic; otherwise exactly MarshalSize() bytes are written, every one of them determined by the packet alone (fixed fields, CSRC words, extension word with profile and length, each element's header octet(s) and value, zero padding of the block, payload, zeroed RTP padding and count), whatever the destination held before, and every byte beyond them is untouched. All index/slice obligations of the encoders are discharged.",
+          "Proved for headers with at most 2 extension elements (precondition of the contracts; the element loops are unrolled completely under it, the CSRC and padding loops carry invariants); extension values and payload must not alias the destination. At the Packet level the header clause covers fixed fields, CSRCs and the extension word (element bytes are established by Header.MarshalTo's contract and lie below the payload).", "§9 C04"),
+ "C13": ("proof", "The LEB128 and OBU-header clauses of the property: WriteToLeb128 produces exactly the LEB128 encoding (length and every byte, loop unrolled completely: all 64-bit values), ReadLeb128 stops at the first byte without continuation bit / fails exactly when there is none, never panics, and ReadLeb128(WriteToLeb128(x) ++ rest) = (x, len) for every x < 2^56 (the property asks 2^32); ParseOBUHeader / Header.Marshal / ExtensionHeader are mutually inverse on all header octets and reject the forbidden bit and truncation.",
+          "NOT decided yet: the payloader/depacketizer losslessness and the aggregation-header rules (W, Z, Y, layer separation) of AV1Payloader/AV1Depacketizer - those clauses have no contract; the value-of-decode lemma is bounded to encodings of at most 8 bytes (beyond that ReadLeb128's 64-bit accumulator overflows, outside the property's domain).", "§9 C13"),
  "C02": ("proof", "Header.Unmarshal, Packet.Unmarshal, GetExtension, GetExtensionIDs for every byte string and every (used or fresh) receiver: all index/slice/nil/make obligations discharged with inductive invariants for the CSRC and extension loops, termination of the extension loop, header length inside the input, header+payload+padding = input length, payload and every extension value are sub-slices of the input (object identity and offsets), input bytes untouched (frame), fixed fields / CSRC list / extension profile / padding size determined by the input alone (no dependence on the receiver's previous state).",
           "Not covered by a checked obligation: that the *list* of extension elements decoded into a reused receiver equals that of a fresh one (needs the RFC grammar as a spec function; the slice is reset and every element is proved to come from the input). Known finding recorded: reserved id 15 leaves the header length inside the extension block.", "§9 C02"),
  "C11": ("proof", "VP8Packet.Unmarshal is proved against a descriptor specification written from the RFC 7741 diagram (pure functions for X/I/L/T/K/M, field offsets and descriptor length): every field equals the encoded bits for all flag combinations and field values, the returned bytes are the input after the descriptor, rejection exactly when the descriptor is cut short, nil rejected; IsPartitionHead is bit 4 of octet 0. VP8Payloader.Payload: inductive invariant and postconditions give fragment sizes (<= MTU, non-empty), S bit on the first fragment only, PID 0, picture-id form by value (7-bit below 128, 15-bit from 128) on every fragment, fragment payloads equal to consecutive windows of the frame, picture id advancing by one modulo 2^15; termination by a decreases clause.",
